@@ -48,6 +48,8 @@ class PieceEval:
                 return v[idx]
         if k == 'mcall' and e['f'].split('::')[-1] in ('size', 'length') and e['o'].get('k') == 'var' and e['o']['id'] in self.vec:
             return len(self.vec[e['o']['id']])
+        if k == 'mcall' and e['f'].split('::')[-1] == 'empty' and e['o'].get('k') == 'var' and e['o']['id'] in self.vec:
+            return int(len(self.vec[e['o']['id']]) == 0)
         if k == 'call' and e.get('f') in self.stubs:
             return self.stubs[e['f']]
         raise evalx.NotEvaluable('call ' + e.get('f', '?'))
